@@ -21,7 +21,7 @@ META = dict(
 DK = "jinns.parameters._derivative_keys:"
 
 
-def routing(kind, group, obs_param=False):
+def routing(kind, group, obs_param=False, mask_order=("a", "b")):
     def build():
         S = Scen(kind, B=2)
         terms = TERMS[kind]
@@ -30,7 +30,7 @@ def routing(kind, group, obs_param=False):
         gi = {"th": 0, "a": 1, "b": 2}[group]
         def total(th, a_, b_, args):
             a = dict(zip(names, args)); a.update(th=th, a=a_, b=b_)
-            loss, params, batch = S.loss_batch(a, derivative_keys=S.dkeys(a["mk"]),
+            loss, params, batch = S.loss_batch(a, derivative_keys=S.dkeys(a["mk"], eq_order=mask_order),
                                                obs_eq={"a": a["oa"]} if obs_param else None)
             return loss.evaluate(params, batch)[0]
         def fn(*args):
@@ -50,7 +50,8 @@ def routing(kind, group, obs_param=False):
                     timeout_ms=20000)
     cls = {"ODE": "jinns.loss._LossODE:LossODE.evaluate", "statio": "jinns.loss._LossPDE:LossPDEStatio.evaluate",
            "nonstatio": "jinns.loss._LossPDE:LossPDENonStatio.evaluate"}[kind]
-    return EqObligation(f"C06/{cls.split(':')[1]}/ensures.gradient_routing[{kind},group={group}{',observed_a' if obs_param else ''}]", build,
+    return EqObligation(f"C06/{cls.split(':')[1]}/ensures.gradient_routing[{kind},group={group}{',observed_a' if obs_param else ''}"
+                        f"{'' if mask_order == ('a', 'b') else ',mask_dict_written_' + '/'.join(mask_order)}]", build,
                         [cls, DK + "_set_derivatives"])
 
 
@@ -230,6 +231,8 @@ def obligations(tier):
         # the observations carry observed values of 'a': the observation term is still masked by its own keys
         for g in (("th", "a") if tier == "quick" else ("th", "a", "b")):
             obs.append(routing(kind, g, obs_param=True))
+        for g in ("a", "b"):
+            obs.append(routing(kind, g, mask_order=("b", "a")))       # mask dictionaries written in another order than eq_params
         obs.append(value_independence(kind))
     for g in ("t1", "t2", "a"):
         obs.append(paramsdict_routing(g))
@@ -237,6 +240,13 @@ def obligations(tier):
         for m in system_mask_sets(kind, tier):
             for g in ("u", "v"):
                 obs.append(system_routing(kind, m, g))
+    # the keys also route the gradient when the batch carries per-sample parameters (C12 gradient obligations, reported here)
+    from contracts import c12
+    for kind in ("ODE", "statio", "nonstatio"):
+        for (K, g) in ((("a",), "th"), (("a",), "b"), (("b",), "a")):
+            o = c12.batched(kind, K, 2, grad_group=g)
+            o.name = o.name.replace("C12/", "C06/")
+            obs.append(o)
     obs.append(FnObligation("C06/mask_builders/bounded.exhaustive_key_sets_0..3", mask_builders,
                             [DK + "_get_masked_parameters", DK + "DerivativeKeysODE.from_str",
                              DK + "DerivativeKeysPDEStatio.from_str", DK + "DerivativeKeysPDENonStatio.from_str"]))
